@@ -306,6 +306,48 @@ func (h *ringGhost) post(op string, to vsup.State) {
 	}
 }
 
+// aftermath: whatever state the path ended in, the buffer can be filled to exactly its capacity (no growth) and then
+// hands everything back byte by byte, in order -- the follow-ups that expose a state that merely looks right
+// (a cursor left one past the end, a full buffer that takes itself for an empty one).
+func (h *ringGhost) aftermath() {
+	h.step = len(h.path) - 1
+	rb := h.rb
+	defer func() {
+		if r := recover(); r != nil {
+			h.viol("Aftermath", "panic", fmt.Sprint(r))
+		}
+	}()
+	capBefore := rb.Cap()
+	if free := rb.Available(); free > 0 && capBefore > 0 {
+		fill := make([]byte, free)
+		vsup.Fill(fill, ringStream, h.wpos)
+		if n, err := rb.Write(fill); n != free || err != nil {
+			h.viol("Aftermath", "fill", fmt.Sprintf("Write(%d bytes = Available) = %d, %v", free, n, err))
+			return
+		}
+		h.wpos += free
+		if rb.Cap() != capBefore || !rb.IsFull() || rb.Buffered() != capBefore {
+			h.viol("Aftermath", "fill", fmt.Sprintf("after writing exactly Available()=%d bytes: Cap %d (was %d), IsFull %v, Buffered %d", free, rb.Cap(), capBefore, rb.IsFull(), rb.Buffered()))
+			return
+		}
+	}
+	for h.rpos < h.wpos {
+		b, err := rb.ReadByte()
+		if err != nil {
+			h.viol("Aftermath", "drain", fmt.Sprintf("ReadByte fails (%v) with %d bytes of content left", err, h.wpos-h.rpos))
+			return
+		}
+		if vsup.Match([]byte{b}, ringStream, h.rpos) >= 0 {
+			h.viol("Aftermath", "content", fmt.Sprintf("ReadByte differs from stream position %d", h.rpos))
+			return
+		}
+		h.rpos++
+	}
+	if !rb.IsEmpty() || rb.Buffered() != 0 {
+		h.viol("Aftermath", "drain", fmt.Sprintf("drained, yet IsEmpty %v Buffered %d", rb.IsEmpty(), rb.Buffered()))
+	}
+}
+
 func TestVerifRingCover(t *testing.T) {
 	g, err := vsup.LoadGraph(os.Getenv("VERIF_GRAPH"))
 	if err != nil {
@@ -326,6 +368,9 @@ func TestVerifRingCover(t *testing.T) {
 			if h.dead {
 				break
 			}
+		}
+		if !h.dead {
+			h.aftermath()
 		}
 		last := g.Edges[path[len(path)-1]]
 		if last.Action != "Norm" {
